@@ -35,6 +35,9 @@ def candidates(m):
             o.append(ItemRemove(h, name))
         o.append(ItemSet(h, 'bad', 'V1'))
         o.append(ItemSet(h, '_b d', 'V1'))
+        o.append(ItemSet(h, '_b\ufdef', 'V1'))     # last of the 32 BMP non-characters
+        o.append(ItemSet(h, '_\ufdd0', 'V1'))      # first of them
+        o.append(FrmCreate(h, 'f\ufdef', None))
         o.append(LoopGetCat(h, None, 'L7'))
         o.append(LoopGetCat(h, 'nope', 'L7'))
         o.append(LoopGetItem(h, '_zz9', 'L7'))
@@ -47,6 +50,8 @@ def candidates(m):
     o.append(BlkCreate(0, 'B', None))
     o.append(BlkCreate(0, '', None))
     o.append(BlkCreate(0, 'x y', None))
+    o.append(BlkCreate(0, 'x\ufdef', None))
+    o.append(BlkCreate(0, '\U0001fffe', None))
     o.append(BlkGet(0, 'nope', 'H7'))
     for l in ['L0', 'L1', 'L2']:
         if l in m.L and m.l_live(l):
